@@ -120,7 +120,9 @@ theorem decision_eq_spec {s : St} (h : Inv s) (t : Name) : s.status true t = .up
               (depVerdict s.checker (s.rcd t) cur p = .same ↔ depUnmod s.checker e s.fs p = true) := by
             intro p hp cur hcur
             obtain ⟨sm, hsaw, hst⟩ := hfst p (sameSet_mem hss hp)
-            simp only [depVerdict, hst, depUnmod, hcur, hsaw, unmodBy, hc, beq_iff_eq]
+            have hns : notSaved (s.rcd t) p = false := by
+              simp [notSaved, hdeps, sameSet_mem hss hp]
+            simp only [depVerdict, hst, hns, Bool.false_eq_true, if_false, depUnmod, hcur, hsaw, unmodBy, hc, beq_iff_eq]
           constructor
           · intro hst
             have hv : fileVerdict s.checker (s.rcd t) s.fs (s.defs t).deps = .upToDate := by
